@@ -49,8 +49,9 @@ theorem parse_print_cst (t : Ast) : parseCst (printMin t 0) = some (bare t).full
 /-- **parse ∘ print = id**: printing a well-formed operator tree (all 12 binary operators, both
 prefix operators, calls with any number of arguments, field access, tuple projection, over
 identifiers and integer literals) with only the necessary parentheses and reading it back with the
-Pratt loop and `lower_expr_with_args` yields the same tree. `wf` only excludes an integer literal as
-the receiver of a postfix operation (see `literal_receiver_rejected`). -/
+Pratt loop and `lower_expr_with_args` yields the same tree. `wf` only excludes an integer literal
+that is called directly (see `literal_receiver_rejected`); a literal may be the receiver of `.field` /
+`.index`, also under a prefix operator and followed by further postfix operations (`-7 . f (x) . 0`). -/
 theorem parse_print (t : Ast) (h : wf t = true) : parse (printMin t 0) = some t := by
   unfold parse
   rw [parseCst_printMin]
@@ -76,6 +77,12 @@ theorem literal_receiver_rejected :
   rfl
 
 /-! ### non-vacuity: concrete trees that exercise every re-association -/
+
+/-- `- 7 . f ( x )`: the pending call reaches the `.` node whose receiver is a literal; it is applied
+there, not handed to the literal -/
+example : parse [.op .Minus, .int ['7'], .op .Dot, .ident "f", .op .LParen, .ident "x", .rparen] =
+    some (.un .neg (.call (.field (.lit ['7']) "f") [.var "x"])) :=
+  parse_print (.un .neg (.call (.field (.lit ['7']) "f") [.var "x"])) rfl
 
 /-- `(a + f)(c)` keeps its parentheses and is read back as a call of `a + f` -/
 example : printMin (.call (.bin .add (.var "a") (.var "f")) [.var "c"]) 0 =
